@@ -52,6 +52,9 @@ func rulePipeline(c *Ctx) {
 		return
 	}
 	hname := funcName(h)
+	sm := settingsModel(c, false)
+	limitField := sm.fieldForKey("completion.maxResults", "MaxResults")
+	fuzzyField := sm.fieldForKey("completion.fuzzyMatching", "FuzzyMatching")
 	// the Items value of the returned list on the main path (the list that is filled from ranked items)
 	var itemsVals []ssa.Value
 	for _, b := range h.Blocks {
@@ -75,7 +78,7 @@ func rulePipeline(c *Ctx) {
 		if cal == nil || len(cal.Params) == 0 {
 			return nil
 		}
-		if strings.HasSuffix(types.TypeString(cal.Params[0].Type(), nil), "server.scoredItem") && strings.HasSuffix(types.TypeString(cal.Signature.Results().At(0).Type(), nil), "protocol.CompletionItem") {
+		if cal.Signature.Results().Len() == 1 && isScoredSlice(cal.Params[0].Type()) && strings.HasSuffix(types.TypeString(cal.Signature.Results().At(0).Type(), nil), "[]go.lsp.dev/protocol.CompletionItem") {
 			return call
 		}
 		return nil
@@ -122,7 +125,7 @@ func rulePipeline(c *Ctx) {
 				okShape = false
 				why = "truncation does not keep a zero-based prefix"
 			}
-			if sl.High == nil || !sliceHasFieldRead(backSlice(sl.High), "MaxResults") {
+			if sl.High == nil || !sliceHasFieldRead(backSlice(sl.High), limitField) {
 				okShape = false
 				why = "the truncation bound is not the configured maximum"
 			}
@@ -131,7 +134,7 @@ func rulePipeline(c *Ctx) {
 			for _, cond := range controlConds(sl.Block()) {
 				if bin, ok := cond.(*ssa.BinOp); ok && bin.Op == token.GTR {
 					if lc, ok := bin.X.(*ssa.Call); ok {
-						if bi, ok := lc.Call.Value.(*ssa.Builtin); ok && bi.Name() == "len" && lc.Call.Args[0] == sl.X && sliceHasFieldRead(backSlice(bin.Y), "MaxResults") {
+						if bi, ok := lc.Call.Value.(*ssa.Builtin); ok && bi.Name() == "len" && lc.Call.Args[0] == sl.X && sliceHasFieldRead(backSlice(bin.Y), limitField) {
 							guard = true
 						}
 					}
@@ -154,7 +157,7 @@ func rulePipeline(c *Ctx) {
 		}
 		// I-ORDER: rank(filter(items...))
 		fcall, ok := rank.Common().Args[0].(*ssa.Call)
-		isFilter := ok && fcall.Common().StaticCallee() != nil && strings.HasSuffix(types.TypeString(fcall.Common().StaticCallee().Signature.Results().At(0).Type(), nil), "server.scoredItem")
+		isFilter := ok && fcall.Common().StaticCallee() != nil && fcall.Common().StaticCallee().Signature.Results().Len() == 1 && isScoredSlice(fcall.Common().StaticCallee().Signature.Results().At(0).Type())
 		c.check(isFilter, "I-ORDER", hname, "ranking consumes the filtered list", rank.Pos(),
 			"filter dominates rank dominates truncate", "the ranking step does not take the output of the matching filter")
 		if isFilter {
@@ -166,11 +169,11 @@ func rulePipeline(c *Ctx) {
 				}
 			}
 			okFlag := false
-			if un, ok := flag.(*ssa.UnOp); ok && un.Op == token.MUL && fieldAddrNamed(un.X, "FuzzyMatching") {
+			if un, ok := flag.(*ssa.UnOp); ok && un.Op == token.MUL && fieldAddrNamed(un.X, fuzzyField) {
 				okFlag = true
 			}
 			if f, ok := flag.(*ssa.Field); ok {
-				if st, ok := f.X.Type().Underlying().(*types.Struct); ok && st.Field(f.Field).Name() == "FuzzyMatching" {
+				if st, ok := f.X.Type().Underlying().(*types.Struct); ok && st.Field(f.Field).Name() == fuzzyField {
 					okFlag = true
 				}
 			}
@@ -179,24 +182,29 @@ func rulePipeline(c *Ctx) {
 				"the filter's matching-mode argument is not the (unmodified) FuzzyMatching setting")
 			// the settings snapshot is taken in this request
 			sl := backSlice(flag)
-			c.check(sliceHasCall(sl, func(cal *ssa.Function, _ *ssa.Call) bool { return strings.HasSuffix(cal.Name(), "getSettings") }), "I-FLAG", hname, "settings snapshot taken per request", fcall.Pos(),
+			c.check(sliceHasCall(sl, func(cal *ssa.Function, _ *ssa.Call) bool { return isSettingsSnapshot(cal, sm) }), "I-FLAG", hname, "settings snapshot taken per request", fcall.Pos(),
 				"settings are read through getSettings() in the handler", "completion settings are not read from the current settings snapshot")
 			// filter input = generated items
 			gen, ok := fcall.Common().Args[0].(*ssa.Call)
-			c.check(ok && gen.Common().StaticCallee() != nil && strings.Contains(gen.Common().StaticCallee().Name(), "generate"), "I-ORDER", hname, "filter consumes the generated items", fcall.Pos(),
+			c.check(ok && gen.Common().StaticCallee() != nil && inModule(gen.Common().StaticCallee()) && gen.Common().StaticCallee().Signature.Results().Len() == 1 &&
+				strings.HasSuffix(types.TypeString(gen.Common().StaticCallee().Signature.Results().At(0).Type(), nil), "[]go.lsp.dev/protocol.CompletionItem"), "I-ORDER", hname, "filter consumes the generated items", fcall.Pos(),
 				"the filter's input is the item list generated from the symbol table", "the filter does not consume the generated item list")
 		}
 	}
 	c.census("I-LIMIT", "result lists filled from ranked items in the completion handler", nMain, 1)
 	// I-LIMIT: who reads MaxResults
 	readers := map[string]bool{}
+	settingsFn := map[string]bool{} // functions that produce settings values: the parser, its helpers, the normaliser
 	for _, f := range c.P.ModuleFuncs() {
 		for _, b := range f.Blocks {
 			for _, ins := range b.Instrs {
-				if fa, ok := ins.(*ssa.FieldAddr); ok && fieldAddrNamed(fa, "MaxResults") {
+				if fa, ok := ins.(*ssa.FieldAddr); ok && fieldAddrNamed(fa, limitField) {
 					for _, r := range *fa.Referrers() {
 						if _, isStore := r.(*ssa.Store); !isStore {
 							readers[funcName(f)] = true
+							if returnsSettings(f, sm) {
+								settingsFn[funcName(f)] = true
+							}
 						}
 					}
 				}
@@ -204,12 +212,72 @@ func rulePipeline(c *Ctx) {
 		}
 	}
 	for r := range readers {
-		okR := r == hname || strings.Contains(r, "normalize") || strings.Contains(r, "applySettings") || strings.Contains(r, "Settings")
+		okR := r == hname || settingsFn[r]
 		c.check(okR, "I-LIMIT", r, "reader of the result limit", token.NoPos, "limit is read by the truncation / settings code only",
 			"the result limit is read outside the normaliser, the settings parser and the truncation step: it can influence which items are generated or how they are ranked, so a smaller maximum is no longer a prefix of a larger one")
 	}
 	ruleRankComparator(c)
 	ruleEditRange(c)
+}
+
+// isScoredSlice: []S where S is a module struct pairing a completion item with an integer score.
+func isScoredSlice(t types.Type) bool {
+	sl, ok := t.Underlying().(*types.Slice)
+	if !ok {
+		return false
+	}
+	st, ok := sl.Elem().Underlying().(*types.Struct)
+	if !ok {
+		return false
+	}
+	hasItem, hasInt := false, false
+	for i := 0; i < st.NumFields(); i++ {
+		ft := st.Field(i).Type()
+		if strings.HasSuffix(types.TypeString(ft, nil), "protocol.CompletionItem") {
+			hasItem = true
+		}
+		if b, ok := ft.Underlying().(*types.Basic); ok && b.Info()&types.IsInteger != 0 {
+			hasInt = true
+		}
+	}
+	return hasItem && hasInt
+}
+
+func settingsRootType(sm *settingsModelT) types.Type {
+	if sm == nil || sm.root == nil {
+		return nil
+	}
+	return sm.root.Type()
+}
+
+// isSettingsSnapshot: a parameterless method returning the whole settings structure by value.
+func isSettingsSnapshot(cal *ssa.Function, sm *settingsModelT) bool {
+	rt := settingsRootType(sm)
+	if rt == nil {
+		return strings.HasSuffix(cal.Name(), "getSettings")
+	}
+	return cal.Signature.Recv() != nil && cal.Signature.Params().Len() == 0 && cal.Signature.Results().Len() == 1 && types.Identical(cal.Signature.Results().At(0).Type(), rt)
+}
+
+// returnsSettings: the function returns the settings structure or one of its sections and is not a
+// method (parser, helper of the parser, normaliser, defaults).
+func returnsSettings(f *ssa.Function, sm *settingsModelT) bool {
+	rt := settingsRootType(sm)
+	if rt == nil || f.Signature.Recv() != nil || f.Signature.Results().Len() != 1 {
+		return false
+	}
+	res := f.Signature.Results().At(0).Type()
+	if types.Identical(res, rt) {
+		return true
+	}
+	if st, ok := rt.Underlying().(*types.Struct); ok {
+		for i := 0; i < st.NumFields(); i++ {
+			if types.Identical(st.Field(i).Type(), res) {
+				return true
+			}
+		}
+	}
+	return false
 }
 
 // ruleRankComparator (I-RANK): the ranking comparator orders by score descending, then by use count descending.
@@ -223,7 +291,7 @@ func ruleRankComparator(c *Ctx) {
 			if !ok || fd.Body == nil || fd.Type.Params == nil || len(fd.Type.Params.List) == 0 {
 				continue
 			}
-			if !strings.HasSuffix(types.TypeString(info.TypeOf(fd.Type.Params.List[0].Type), nil), "server.scoredItem") {
+			if t := info.TypeOf(fd.Type.Params.List[0].Type); t == nil || !isScoredSlice(t) {
 				continue
 			}
 			ast.Inspect(fd.Body, func(x ast.Node) bool {
